@@ -42,19 +42,19 @@ Definition call_ppt_abort (caller : session) (opts : dict) : bool :=
 Definition call_ppt_refused (callee : session) (opts : dict) : bool :=
   ppt_active opts && negb (sess_feature callee "callee" f_ppt).
 
-Definition call_disclose_refused_cond (cfg : config) (r : registration) (opts : dict) : bool :=
-  negb (reg_disclose r) && opt_bool opts "disclose_me" && negb (c_disclose cfg).
+Definition call_disclose_refused_cond (cfg : config) (r : registration) (callee_id : N) (opts : dict) : bool :=
+  negb (reg_discloses r callee_id) && opt_bool opts "disclose_me" && negb (c_disclose cfg).
 
 Definition timeout_forwarded (callee : session) (r : registration) : bool :=
   sess_feature callee "callee" f_call_timeout && reg_fwd_timeout r.
 
 (** INVOCATION.Details of a first chunk *)
-Definition call_details (cfg : config) (caller callee : session) (r : registration)
+Definition call_details (cfg : config) (caller callee : session) (callee_id : N) (r : registration)
            (opts : dict) (proc : string) : dict :=
   let det0 := if ppt_active opts then ppt_into opts [("progress", VBool (opt_bool opts "progress"))]
               else [("progress", VBool (opt_bool opts "progress"))] in
   let det1 :=
-    if reg_disclose r then disclose_dict "caller" (s_id caller) (s_details caller) det0
+    if reg_discloses r callee_id then disclose_dict "caller" (s_id caller) (s_details caller) det0
     else if opt_bool opts "disclose_me" && sess_feature callee "callee" f_caller_ident
          then disclose_dict "caller" (s_id caller) (s_details caller) det0 else det0 in
   let det2 :=
@@ -184,12 +184,12 @@ Section Call.
       then CallAbort [(csid, RAbort [("message", vstr "<text>")] e_protocol_violation)]
       else if call_ppt_refused callee opts
       then CallRefused (call_d0 d r next) [(csid, RError c_CALL req [] e_feature_not_supported [] [])]
-      else if call_disclose_refused_cond cfg r opts
+      else if call_disclose_refused_cond cfg r callee_id opts
            then CallRefused (call_d0 d r next) [(csid, RError c_CALL req [] e_disclose_me [] [])]
            else CallInvoked (call_first_state now d cid opts r callee_id next callee)
                             (set_invgen callee (idgen_next (s_invgen callee)))
                             [(callee_id, RInvocation (idgen_next (s_invgen callee)) (reg_id r)
-                                                     (call_details cfg caller callee r opts proc) args kw)].
+                                                     (call_details cfg caller callee callee_id r opts proc) args kw)].
   Proof.
     intros r callee_id next callee H E Ha Hb Hs Hl. unfold the_call, call. rewrite H.
     destruct (reg_callees r) eqn:Ec; [congruence|]. rewrite <- Ec.
@@ -200,7 +200,7 @@ Section Call.
       [reflexivity|].
     destruct (ppt_active opts && negb (sess_feature caller "caller" f_ppt)); [reflexivity|].
     destruct (ppt_active opts && negb (sess_feature callee "callee" f_ppt)); [reflexivity|].
-    destruct (negb (reg_disclose r) && opt_bool opts "disclose_me" && negb (c_disclose cfg)); [reflexivity|].
+    destruct (negb (reg_discloses r callee_id) && opt_bool opts "disclose_me" && negb (c_disclose cfg)); [reflexivity|].
     unfold call_first_state, call_details, first_inv, local_timer, timeout_forwarded, call_d0, reg_set_next.
     destruct ((0 <? opt_int64 opts "timeout")%Z &&
               negb (sess_feature callee "callee" f_call_timeout && reg_fwd_timeout r)); reflexivity.
@@ -269,7 +269,7 @@ Section Call.
       select_callee r oracle = Some (callee_id, next) -> lookup callee_id = Some callee ->
       call_feature_refused callee opts = false ->
       call_ppt_abort caller opts = false -> call_ppt_refused callee opts = false ->
-      call_disclose_refused_cond cfg r opts = true ->
+      call_disclose_refused_cond cfg r callee_id opts = true ->
       call_outcome (CallRefused (call_d0 d r next) [(csid, RError c_CALL req [] e_disclose_me [] [])])
   | CO_first r callee_id next callee :
       match_procedure d proc oracle = Some r -> reg_callees r <> [] ->
@@ -277,11 +277,11 @@ Section Call.
       select_callee r oracle = Some (callee_id, next) -> lookup callee_id = Some callee ->
       call_feature_refused callee opts = false ->
       call_ppt_abort caller opts = false -> call_ppt_refused callee opts = false ->
-      call_disclose_refused_cond cfg r opts = false ->
+      call_disclose_refused_cond cfg r callee_id opts = false ->
       call_outcome (CallInvoked (call_first_state now d cid opts r callee_id next callee)
                                 (set_invgen callee (idgen_next (s_invgen callee)))
                                 [(callee_id, RInvocation (idgen_next (s_invgen callee)) (reg_id r)
-                                                         (call_details cfg caller callee r opts proc) args kw)]).
+                                                         (call_details cfg caller callee callee_id r opts proc) args kw)]).
 
   Lemma call_cases : call_outcome the_call.
   Proof.
@@ -309,7 +309,7 @@ Section Call.
       { eapply CO_ppt_abort; eassumption. }
       destruct (call_ppt_refused callee opts) eqn:Hpr.
       { eapply CO_ppt_refused; eassumption. }
-      destruct (call_disclose_refused_cond cfg r opts) eqn:Hd.
+      destruct (call_disclose_refused_cond cfg r callee_id opts) eqn:Hd.
       { eapply CO_disclose; eassumption. }
       eapply CO_first; eassumption.
   Qed.
@@ -424,8 +424,8 @@ Qed.
 Ltac not_ppt_key := unfold ppt_keys; cbn; intuition discriminate.
 
 (** the caller is disclosed to this callee *)
-Definition disclosed (callee : session) (r : registration) (opts : dict) : bool :=
-  reg_disclose r || (opt_bool opts "disclose_me" && sess_feature callee "callee" f_caller_ident).
+Definition disclosed (callee : session) (callee_id : N) (r : registration) (opts : dict) : bool :=
+  reg_discloses r callee_id || (opt_bool opts "disclose_me" && sess_feature callee "callee" f_caller_ident).
 
 Definition wants_progress (callee : session) (opts : dict) : bool :=
   opt_bool opts "receive_progress" && sess_feature callee "callee" f_prog_res
@@ -438,36 +438,36 @@ Lemma dget_if_dset' : forall (c : bool) d k v k',
     dget (if c then d else dset d k v) k' = if String.eqb k' k && negb c then Some v else dget d k'.
 Proof. intros [] d k v k'; rewrite ?dget_dset; destruct (String.eqb k' k); reflexivity. Qed.
 
-Definition details1 (caller callee : session) (r : registration) (opts : dict) : dict :=
-  if disclosed callee r opts
+Definition details1 (caller callee : session) (callee_id : N) (r : registration) (opts : dict) : dict :=
+  if disclosed callee callee_id r opts
   then disclose_dict "caller" (s_id caller) (s_details caller) (ppt_det0 opts)
   else ppt_det0 opts.
 
-Lemma call_details_layers : forall cfg caller callee r opts proc,
-    call_details cfg caller callee r opts proc =
+Lemma call_details_layers : forall cfg caller callee callee_id r opts proc,
+    call_details cfg caller callee callee_id r opts proc =
     (if (0 <? opt_int64 opts "timeout")%Z && timeout_forwarded callee r
      then dset (if String.eqb (reg_match r) match_exact
-                then (if wants_progress callee opts then dset (details1 caller callee r opts) "receive_progress" (VBool true)
-                      else details1 caller callee r opts)
-                else dset (if wants_progress callee opts then dset (details1 caller callee r opts) "receive_progress" (VBool true)
-                           else details1 caller callee r opts) "procedure" (vuri proc))
+                then (if wants_progress callee opts then dset (details1 caller callee callee_id r opts) "receive_progress" (VBool true)
+                      else details1 caller callee callee_id r opts)
+                else dset (if wants_progress callee opts then dset (details1 caller callee callee_id r opts) "receive_progress" (VBool true)
+                           else details1 caller callee callee_id r opts) "procedure" (vuri proc))
                "timeout" (VInt KInt64 (opt_int64 opts "timeout"))
      else (if String.eqb (reg_match r) match_exact
-           then (if wants_progress callee opts then dset (details1 caller callee r opts) "receive_progress" (VBool true)
-                 else details1 caller callee r opts)
-           else dset (if wants_progress callee opts then dset (details1 caller callee r opts) "receive_progress" (VBool true)
-                      else details1 caller callee r opts) "procedure" (vuri proc))).
+           then (if wants_progress callee opts then dset (details1 caller callee callee_id r opts) "receive_progress" (VBool true)
+                 else details1 caller callee callee_id r opts)
+           else dset (if wants_progress callee opts then dset (details1 caller callee callee_id r opts) "receive_progress" (VBool true)
+                      else details1 caller callee callee_id r opts) "procedure" (vuri proc))).
 Proof.
   intros. unfold call_details, details1, disclosed, wants_progress. fold (ppt_det0 opts).
-  destruct (reg_disclose r); [reflexivity|]. cbn [orb].
+  destruct (reg_discloses r callee_id); [reflexivity|]. cbn [orb].
   destruct (opt_bool opts "disclose_me" && sess_feature callee "callee" f_caller_ident); reflexivity.
 Qed.
 
-Lemma details1_other : forall caller callee r opts k,
+Lemma details1_other : forall caller callee callee_id r opts k,
     k <> "caller" -> k <> "caller_authid" -> k <> "caller_authrole" ->
-    dget (details1 caller callee r opts) k = dget (ppt_det0 opts) k.
+    dget (details1 caller callee callee_id r opts) k = dget (ppt_det0 opts) k.
 Proof.
-  intros. unfold details1. destruct (disclosed callee r opts); [|reflexivity].
+  intros. unfold details1. destruct (disclosed callee callee_id r opts); [|reflexivity].
   apply dget_disclose_other; assumption.
 Qed.
 
@@ -481,18 +481,18 @@ Ltac eqb_consts :=
              end
          end.
 
-Lemma call_details_spec : forall cfg caller callee r opts proc,
-    let det := call_details cfg caller callee r opts proc in
+Lemma call_details_spec : forall cfg caller callee callee_id r opts proc,
+    let det := call_details cfg caller callee callee_id r opts proc in
     dget det "progress" = Some (VBool (opt_bool opts "progress")) /\
     dget det "receive_progress" = (if wants_progress callee opts then Some (VBool true) else None) /\
     dget det "procedure" = (if String.eqb (reg_match r) match_exact then None else Some (vuri proc)) /\
     dget det "timeout" = (if (0 <? opt_int64 opts "timeout")%Z && timeout_forwarded callee r
                           then Some (VInt KInt64 (opt_int64 opts "timeout")) else None) /\
-    dget det "caller" = (if disclosed callee r opts then Some (vid (s_id caller)) else None) /\
-    dget det "caller_authid" = (if disclosed callee r opts then dget (s_details caller) "authid" else None) /\
-    dget det "caller_authrole" = (if disclosed callee r opts then dget (s_details caller) "authrole" else None).
+    dget det "caller" = (if disclosed callee callee_id r opts then Some (vid (s_id caller)) else None) /\
+    dget det "caller_authid" = (if disclosed callee callee_id r opts then dget (s_details caller) "authid" else None) /\
+    dget det "caller_authrole" = (if disclosed callee callee_id r opts then dget (s_details caller) "authrole" else None).
 Proof.
-  intros cfg caller callee r opts proc det. subst det. rewrite call_details_layers.
+  intros cfg caller callee callee_id r opts proc det. subst det. rewrite call_details_layers.
   assert (P0 : forall k, ~ In k ppt_keys -> k <> "progress" -> dget (ppt_det0 opts) k = None).
   { intros k H1 H2. rewrite dget_ppt_det0_other by exact H1. cbn.
     unfold dget. cbn. destruct (String.eqb_spec k "progress"); [contradiction | reflexivity]. }
@@ -506,19 +506,19 @@ Proof.
     rewrite details1_other by discriminate. apply P0; [not_ppt_key | discriminate].
   - destruct ((0 <? opt_int64 opts "timeout")%Z && timeout_forwarded callee r); [reflexivity|].
     rewrite details1_other by discriminate. apply P0; [not_ppt_key | discriminate].
-  - unfold details1. destruct (disclosed callee r opts); [exact D1 | apply P0; [not_ppt_key | discriminate]].
-  - unfold details1. destruct (disclosed callee r opts); [exact D2 | apply P0; [not_ppt_key | discriminate]].
-  - unfold details1. destruct (disclosed callee r opts); [exact D3 | apply P0; [not_ppt_key | discriminate]].
+  - unfold details1. destruct (disclosed callee callee_id r opts); [exact D1 | apply P0; [not_ppt_key | discriminate]].
+  - unfold details1. destruct (disclosed callee callee_id r opts); [exact D2 | apply P0; [not_ppt_key | discriminate]].
+  - unfold details1. destruct (disclosed callee callee_id r opts); [exact D3 | apply P0; [not_ppt_key | discriminate]].
 Qed.
 
 (** the passthru options are copied into the INVOCATION details iff passthru mode is used *)
-Lemma call_details_ppt : forall cfg caller callee r opts proc k,
+Lemma call_details_ppt : forall cfg caller callee callee_id r opts proc k,
     In k ppt_keys ->
-    dget (call_details cfg caller callee r opts proc) k = if ppt_active opts then ppt_val opts k else None.
+    dget (call_details cfg caller callee callee_id r opts proc) k = if ppt_active opts then ppt_val opts k else None.
 Proof.
-  intros cfg caller callee r opts proc k Hk. rewrite call_details_layers.
+  intros cfg caller callee callee_id r opts proc k Hk. rewrite call_details_layers.
   rewrite <- (dget_ppt_det0_key opts k Hk).
-  assert (Hd : dget (details1 caller callee r opts) k = dget (ppt_det0 opts) k).
+  assert (Hd : dget (details1 caller callee callee_id r opts) k = dget (ppt_det0 opts) k).
   { apply details1_other; unfold ppt_keys in Hk; cbn in Hk;
       destruct Hk as [<-|[<-|[<-|[<-|[]]]]]; discriminate. }
   unfold ppt_keys in Hk. cbn in Hk.
@@ -599,7 +599,7 @@ Theorem invocation_spec_proof : forall cfg lookup now d caller req opts proc arg
       select_callee r oracle = Some (callee_id, next) /\ In callee_id (reg_callees r) /\
       lookup callee_id = Some callee /\
       let invid := idgen_next (s_invgen callee) in
-      let det := call_details cfg caller callee r opts proc in
+      let det := call_details cfg caller callee callee_id r opts proc in
       o = [(callee_id, RInvocation invid (reg_id r) det args kw)] /\
       callee' = set_invgen callee invid /\
       d' = call_first_state now d (s_id caller, req) opts r callee_id next callee /\
@@ -612,7 +612,7 @@ Proof.
   pose proof (call_cases cfg lookup now d caller req opts proc args kw oracle) as H.
   rewrite Hc in H. inversion H; subst; try congruence.
   exists r, callee_id, next, callee.
-  destruct (call_details_spec cfg caller callee r opts proc) as (D1 & D2 & D3 & _).
+  destruct (call_details_spec cfg caller callee callee_id r opts proc) as (D1 & D2 & D3 & _).
   repeat split; auto.
   - eapply select_member; eassumption.
   - apply (cfs_pending now d (s_id caller, req)).
@@ -628,7 +628,7 @@ Theorem invocation_ppt_proof : forall cfg lookup now d caller req opts proc args
     cget (d_bycall d) (s_id caller, req) = None ->
     exists r callee_id callee,
       match_procedure d proc oracle = Some r /\ lookup callee_id = Some callee /\
-      let det := call_details cfg caller callee r opts proc in
+      let det := call_details cfg caller callee callee_id r opts proc in
       o = [(callee_id, RInvocation (idgen_next (s_invgen callee)) (reg_id r) det args kw)] /\
       (forall k, In k ppt_keys -> dget det k = if ppt_active opts then ppt_val opts k else None) /\
       (ppt_active opts = true ->
@@ -680,7 +680,7 @@ Qed.
 Theorem timeout_forwarded_iff_proof : forall cfg now d caller req opts proc r callee_id next callee,
     let cid := (s_id caller, req) in
     let tmo := opt_int64 opts "timeout" in
-    let det := call_details cfg caller callee r opts proc in
+    let det := call_details cfg caller callee callee_id r opts proc in
     let d' := call_first_state now d cid opts r callee_id next callee in
     let inv := first_inv d cid callee_id callee r opts in
     (dget det "timeout" <> None <-> ((0 < tmo)%Z /\ sess_feature callee "callee" f_call_timeout = true /\ reg_fwd_timeout r = true)) /\
@@ -692,7 +692,7 @@ Theorem timeout_forwarded_iff_proof : forall cfg now d caller req opts proc r ca
     ((tmo <= 0)%Z -> d_timers d' = d_timers d /\ inv_timer inv = None).
 Proof.
   intros cfg now d caller req opts proc r callee_id next callee cid tmo det d' inv.
-  destruct (call_details_spec cfg caller callee r opts proc) as (_ & _ & _ & D4 & _).
+  destruct (call_details_spec cfg caller callee callee_id r opts proc) as (_ & _ & _ & D4 & _).
   fold det tmo in D4. subst d' inv. rewrite cfs_timers, cfs_timergen. unfold first_inv. cbn [inv_timer].
   fold tmo. unfold local_timer, timeout_forwarded in *.
   rewrite D4. destruct (Z.ltb_spec 0 tmo) as [Hpos|Hnp]; cbn [andb].
@@ -711,7 +711,7 @@ Theorem invocation_disclose_iff_proof : forall cfg lookup now d caller req opts 
     exists r callee_id callee invid det,
       match_procedure d proc oracle = Some r /\ lookup callee_id = Some callee /\
       o = [(callee_id, RInvocation invid (reg_id r) det args kw)] /\
-      let allowed := reg_disclose r ||
+      let allowed := reg_discloses r callee_id ||
                      (opt_bool opts "disclose_me" && c_disclose cfg && sess_feature callee "callee" f_caller_ident) in
       dget det "caller" = (if allowed then Some (vid (s_id caller)) else None) /\
       dget det "caller_authid" = (if allowed then dget (s_details caller) "authid" else None) /\
@@ -720,13 +720,13 @@ Proof.
   intros cfg lookup now d caller req opts proc args kw oracle d' callee' o Hc Hb.
   pose proof (call_cases cfg lookup now d caller req opts proc args kw oracle) as H.
   rewrite Hc in H. inversion H; subst; try congruence.
-  exists r, callee_id, callee, (idgen_next (s_invgen callee)), (call_details cfg caller callee r opts proc).
-  destruct (call_details_spec cfg caller callee r opts proc) as (_ & _ & _ & _ & D5 & D6 & D7).
+  exists r, callee_id, callee, (idgen_next (s_invgen callee)), (call_details cfg caller callee callee_id r opts proc).
+  destruct (call_details_spec cfg caller callee callee_id r opts proc) as (_ & _ & _ & _ & D5 & D6 & D7).
   repeat split; auto.
-  all: match goal with Hd : call_disclose_refused_cond _ _ _ = false |- _ => unfold call_disclose_refused_cond in Hd end.
-  all: assert (E : reg_disclose r || (opt_bool opts "disclose_me" && c_disclose cfg && sess_feature callee "callee" f_caller_ident)
-               = disclosed callee r opts)
-    by (unfold disclosed; destruct (reg_disclose r), (opt_bool opts "disclose_me"), (c_disclose cfg);
+  all: match goal with Hd : call_disclose_refused_cond _ _ _ _ = false |- _ => unfold call_disclose_refused_cond in Hd end.
+  all: assert (E : reg_discloses r callee_id || (opt_bool opts "disclose_me" && c_disclose cfg && sess_feature callee "callee" f_caller_ident)
+               = disclosed callee callee_id r opts)
+    by (unfold disclosed; destruct (reg_discloses r callee_id), (opt_bool opts "disclose_me"), (c_disclose cfg);
         cbn in *; try reflexivity; discriminate).
   all: rewrite E; assumption.
 Qed.
@@ -737,7 +737,7 @@ Theorem call_disclose_refused_proof : forall cfg lookup now d caller req opts pr
     select_callee r oracle = Some (callee_id, next) -> lookup callee_id = Some callee ->
     call_feature_refused callee opts = false ->
     call_ppt_abort caller opts = false -> call_ppt_refused callee opts = false ->
-    opt_bool opts "disclose_me" = true -> reg_disclose r = false -> c_disclose cfg = false ->
+    opt_bool opts "disclose_me" = true -> reg_discloses r callee_id = false -> c_disclose cfg = false ->
     call cfg lookup now d caller req opts proc args kw oracle =
     CallRefused (call_d0 d r next) [(s_id caller, RError c_CALL req [] e_disclose_me [] [])] /\
     same_calls d (call_d0 d r next) /\ d_timers (call_d0 d r next) = d_timers d.
@@ -749,17 +749,18 @@ Proof.
 Qed.
 
 (** no INVOCATION is ever produced for a disallowed disclose_me *)
-Theorem call_disclose_never_invoked_proof : forall cfg lookup now d caller req opts proc args kw oracle d' callee' o r,
+Theorem call_disclose_never_invoked_proof : forall cfg lookup now d caller req opts proc args kw oracle d' callee' o r x m,
     call cfg lookup now d caller req opts proc args kw oracle = CallInvoked d' callee' o ->
     cget (d_bycall d) (s_id caller, req) = None ->
-    match_procedure d proc oracle = Some r ->
-    opt_bool opts "disclose_me" = true -> reg_disclose r = false -> c_disclose cfg = true.
+    match_procedure d proc oracle = Some r -> In (x, m) o ->
+    opt_bool opts "disclose_me" = true -> reg_discloses r x = false -> c_disclose cfg = true.
 Proof.
-  intros cfg lookup now d caller req opts proc args kw oracle d' callee' o r Hc Hb Hm H1 H2.
+  intros cfg lookup now d caller req opts proc args kw oracle d' callee' o r x m Hc Hb Hm Hin H1 H2.
   pose proof (call_cases cfg lookup now d caller req opts proc args kw oracle) as H.
   rewrite Hc in H. inversion H; subst; try congruence.
   assert (r0 = r) by congruence. subst r0.
-  match goal with Hd : call_disclose_refused_cond _ _ _ = false |- _ => unfold call_disclose_refused_cond in Hd; rewrite H1, H2 in Hd end.
+  destruct Hin as [E|[]]. inversion E; subst x m.
+  match goal with Hd : call_disclose_refused_cond _ _ _ _ = false |- _ => unfold call_disclose_refused_cond in Hd; rewrite H1, H2 in Hd end.
   destruct (c_disclose cfg); [reflexivity | discriminate].
 Qed.
 
